@@ -1,3 +1,4 @@
+\* every builder sequence of <= 5 calls, all invariants
 CONSTANTS
   Pats = {"/a", "/*"}
   HKinds = {"plain", "ownO"}
